@@ -19,7 +19,7 @@ CHECKS = {
         technique='deterministic simulation with fault injection: per sampled world, exhaustive enumeration of abandonment points (close/drop/throw after every k-th answer) and of raise points in user predicates; registry + per-query restore monitor + re-run oracle',
         text='For each seeded world (compiled program with cut, ;, ->, negation, once, call/N, findall, natives, dynamic facts, pre-bound query '
              'variables) the fault space is enumerated completely: every k in 0..#answers x {close, drop, throw} and every native invocation x '
-             '{raise before first yield, raise on resumption}. After every fault: every engine Variable ever created (registry) is in its '
+             '{raise before first yield, raise on resumption}, abandonment through evaluate_bounded, and an independent generator over other variables suspended across the query\'s end (non-LIFO endings). After every fault: every engine Variable ever created (registry) is in its '
              'pre-query state, every nested query restored on its exhaustion path, dropped generators are finalised at once, and the re-run '
              'reproduces the fault-free answers. Worlds are sampled; fault placement per world is exhaustive.',
         note='Self-referential oracles only (no reference Prolog), so pure-semantics defects cannot raise alarms here. CPython refcount finalisation assumed; worlds that do not compile, build cyclic terms or exceed the line budget are discarded and counted.'),
@@ -64,7 +64,7 @@ CHECKS = {
              'get_value results at arbitrary points and re-read every ground saved value after each later event (pop by close/drop/resume, final '
              'unwinding): it must contain no Variable object and denote the same term. to_python of every pool variable is compared with the model at '
              'every event. 30% of the runs also compile a program whose body builds one term by a seeded permutation of unifications and consume it '
-             'through the documented collect idiom, findall/3 and assertz.',
+             'through the documented collect idiom (plain loop and evaluate_bounded with the limit striking inside the projection), findall/3 and assertz. Independent enumerations on the same or another engine are advanced and ended at any point of the history.',
         note='Non-ground saved values are checked at save time only; to_python is compared only where it is documented (proper lists). Trusts the substitution model and the to_python mapping in ypsim.terms.'),
     'C17': dict(
         category='fault_enumeration', design_ref='DESIGN.md section 4, C17',
@@ -74,14 +74,14 @@ CHECKS = {
              'at every k <= 6 with two exception types. Checked per call: no RecursionError escapes, the result is a prefix of the plain enumeration '
              '(and complete when the plain enumeration fits under a limit 12 frames lower), sys.getrecursionlimit() is what it was (also when the '
              'caller had a lower limit than the one requested), and every variable is unbound once the call has returned or its exception has been '
-             'released, whether or not the caller still holds the query.',
+             'released, whether or not the caller still holds the query. Database-at-depth worlds (dynamic facts looked up, asserted, retracted where the limit strikes): the plain enumeration after every bounded call must give what it gave before; an engine exception may escape only if the plain enumeration ends in the same one.',
         note='Runs on one fresh thread per world so that the caller depth is a constant; limits are relative to the measured caller frame depth. Self-referential prefix oracle; engine exceptions other than RecursionError are outcomes.'),
     'C18': dict(
         category='exploration', design_ref='DESIGN.md section 4, C18',
-        technique='deterministic simulation of the environment: pool of fresh interpreters with seeded PYTHONHASHSEED, fake clock/pid and seeded compile histories; byte comparison',
+        technique='deterministic simulation of the environment: pool of fresh interpreters with seeded PYTHONHASHSEED, fake clock/pid and seeded compile histories, pairs of compilations run concurrently in two baton-scheduled threads with seeded line-level pre-emption; byte comparison',
         text='Every run starts 2-4 real CPython processes, each under its own seeded string-hash seed, fake wall clock, fake pid and its own '
              'seeded history of other compilations, and requires byte-identical return values for equal (text, options) at every position in '
-             'every process. Environment nondeterminism is the only thing the property depends on, so it is what the simulator owns here.',
+             'every process - also when another compilation runs at the same time in a second thread of the interpreter (seeded baton scheduler, the package\'s source lines as pre-emption points). Environment nondeterminism is the only thing the property depends on, so it is what the simulator owns here.',
         note='Real hash seeds only (no faked set orders); exception type is the outcome; debug stream written to outf is not compared (it prints object addresses by design and is not part of the returned text).'),
 }
 CHECKS['C20'] = dict(
@@ -91,7 +91,7 @@ CHECKS['C20'] = dict(
          'registration styles, yield True/False, some next to dynamic facts) - and both engines are driven by the same schedule: enumerate, abandon '
          'after every k by close and by drop, re-run. Observation logs must be identical. Then every native invocation gets a raise injected before '
          'its first yield and on resumption: the exception must reach the consumer as the same object, after a prefix of the compiled answers, '
-         'leaving no binding. Native arguments must be engine terms or Python constants.',
+         'leaving no binding - also when the query is consumed through evaluate_bounded (RuntimeError absorbed by contract). After clear() on both twins and reloading the all-compiled script both must agree again. Native arguments must be engine terms or Python constants.',
     note='Differential oracle (engine A is the model for B); the simulator contributes the lifecycle schedule and the faults. Worlds that hit a RecursionError on either side (cyclic terms) are discarded.')
 CHECKS['C04'] = dict(
     category='exploration', design_ref='DESIGN.md section 4, C04',
